@@ -65,15 +65,29 @@ KRB5_OID = bytes.fromhex("06092a864886f712010202")
 # ---------------------------------------------------------------------------
 # GSS stubs (no GSS-API library on this image; these stand in for the third-party context)
 
+MIC_KEY = b"vf-c14-gss-stub-key"
+
+
+def stub_mic(session_id, username):
+    """The MIC the stub GSS context accepts: a keyed tag over this session's id and the user name."""
+    import hashlib
+    import hmac
+
+    return hmac.new(MIC_KEY, sstr(bytes(session_id)) + sstr(username or ""), hashlib.sha256).digest()
+
+
 class StubKexCtx:
-    def __init__(self, ok=True):
-        self.ok = ok
+    """Stands in for the context a GSS key exchange leaves behind: verifies the MIC, raises on anything else."""
+
+    def __init__(self):
         self.calls = 0
 
     def ssh_check_mic(self, mic_token, session_id, username=None):
+        import hmac
+
         self.calls += 1
-        if not self.ok:
-            raise ValueError("stub: bad MIC")
+        if not hmac.compare_digest(bytes(mic_token), stub_mic(session_id, username)):
+            raise ValueError("stub GSS context: MIC verification failed")
 
 
 class StubGSSAuth:
@@ -238,7 +252,7 @@ def draw_policy(rng, focus=None):
         check_auth_gssapi_keyex=pick([34, 33, 33]),
         check_auth_gssapi_with_mic=pick([34, 33, 33]),
         enable_auth_gssapi=rng.random() < 0.6,
-        kex_ctx=rng.choices(["ok", "bad", "none"], weights=[80, 10, 10])[0],
+        kex_ctx=rng.choices(["ok", "none"], weights=[90, 10])[0],
     )
     if focus:
         pol.update(focus)
@@ -279,6 +293,9 @@ def build_policy(pol):
     )
 
 
+MIC_KINDS = ["valid", "garbage", "empty", "other_user", "other_session"]
+OTHER_METHODS = ["none", "password", "unknown", "pk_query", "kbd"]
+
 GENERAL_STEPS = ["none", "password", "password", "password_change", "pk", "pk", "pk", "kbd_start", "kbd_start",
                  "info_response", "info_response", "gss_keyex", "gss_keyex", "gss_mic_start", "unknown_method",
                  "gss_token", "gss_mic", "garbage_request", "other_user"]
@@ -314,7 +331,12 @@ def step_body(rng, sess, user, st):
         n = rng.choice([0, 1, 1, 1, 2])
         return MSG_USERAUTH_INFO_RESPONSE, u32(n) + b"".join(sstr("answer%d" % i) for i in range(n))
     if kind == "gss_keyex":
-        return MSG_USERAUTH_REQUEST, sstr(user) + sstr(svc) + sstr("gssapi-keyex") + sstr(rng.randbytes(rng.randint(0, 24)))
+        mk = st[1] if len(st) > 1 else rng.choice(["valid", "valid"] + MIC_KINDS)
+        sid = sess.att.att.session_id
+        mic = dict(valid=lambda: stub_mic(sid, user), garbage=lambda: rng.randbytes(rng.choice([1, 16, 32, 33])),
+                   empty=lambda: b"", other_user=lambda: stub_mic(sid, user + "2"),
+                   other_session=lambda: stub_mic(rng.choice(_OLD_SIDS[:-1]) if len(_OLD_SIDS) > 1 else rng.randbytes(len(sid)), user))[mk]()
+        return MSG_USERAUTH_REQUEST, sstr(user) + sstr(svc) + sstr("gssapi-keyex") + sstr(mic)
     if kind == "gss_mic_start":
         return MSG_USERAUTH_REQUEST, sstr(user) + sstr(svc) + sstr("gssapi-with-mic") + u32(1) + sstr(KRB5_OID)
     if kind == "gss_token":
@@ -326,7 +348,18 @@ def step_body(rng, sess, user, st):
     if kind == "garbage_request":
         return MSG_USERAUTH_REQUEST, sstr(user) + sstr(svc) + sstr(rng.choice(["password", "publickey"])) + rng.randbytes(rng.randint(0, 12))
     if kind == "other_user":
-        return MSG_USERAUTH_REQUEST, sstr(user + "2") + sstr(svc) + sstr("password") + b"\x00" + sstr("pw")
+        om = st[1] if len(st) > 1 else rng.choice(OTHER_METHODS)
+        head = sstr(user + "2") + sstr(svc)
+        if om == "none":
+            return MSG_USERAUTH_REQUEST, head + sstr("none")
+        if om == "password":
+            return MSG_USERAUTH_REQUEST, head + sstr("password") + b"\x00" + sstr("pw")
+        if om == "unknown":
+            return MSG_USERAUTH_REQUEST, head + sstr("hostbased")
+        if om == "kbd":
+            return MSG_USERAUTH_REQUEST, head + sstr("keyboard-interactive") + sstr("") + sstr("")
+        k = keyset()["ed25519"][0]
+        return MSG_USERAUTH_REQUEST, head + sstr("publickey") + b"\x00" + sstr("ssh-ed25519") + sstr(k.asbytes())
     raise ValueError(kind)
 
 
@@ -389,6 +422,19 @@ def judge_episode(ctx, ep, sid):
                     continue
             info["sig_valid"] = sigok
             return ok_own and sigok, info
+        if method == b"gssapi-keyex" and own:
+            # the GSS path was taken (its callback ran): the grant also needs a MIC valid for this session and user
+            micok = False
+            try:
+                mic = Rd(rd.d, rd.p).string()
+                ctx.count("gss_mic_checks_independent")
+                micok = mic == stub_mic(sid, user.decode("utf-8", "replace"))
+            except Short:
+                pass
+            info["mic_valid"] = micok
+            if micok:
+                ctx.count("gss_mic_valid")
+            return ok_own and micok, info
         if ok_own:
             return True, info
         if method not in OWN_ONLY:
@@ -412,7 +458,7 @@ def judge_episode(ctx, ep, sid):
     return False, dict(kind="message type %d" % t, method="-", cbstate="not an authentication request")
 
 
-def analyse(ctx, sess, desc, labels, auth_samples):
+def analyse(ctx, sess, desc, labels, auth_samples, name_samples=()):
     """labels: {victim in-seq -> step label} (harness knowledge, only for the signature class)."""
     v = sess.victim
     sid = v.session_id
@@ -420,11 +466,19 @@ def analyse(ctx, sess, desc, labels, auth_samples):
     approved_upto = []  # event numbers n at which an approved episode started
     grant_ns = []  # episodes that sent USERAUTH_SUCCESS (each judged on its own above)
     n_requests = 0
+    opener_user = None  # username of the request that opened the running interactive / gssapi-with-mic exchange
     for ep in eps:
         m = ep["msg"]
         if m["type"] in (MSG_USERAUTH_REQUEST, MSG_USERAUTH_INFO_RESPONSE, MSG_USERAUTH_GSSAPI_MIC):
             n_requests += 1
             ctx.count("victim_auth_messages_read")
+        if m["type"] == MSG_USERAUTH_REQUEST:
+            rq0 = parse_userauth_request(m["payload"])
+            if rq0 is not None and rq0["method"] in (b"keyboard-interactive", b"gssapi-with-mic") \
+                    and any(o["type"] == 60 for o in ep["out"]):
+                opener_user = rq0["user"].decode("utf-8", "replace")
+            elif rq0 is not None and opener_user is not None and rq0["user"].decode("utf-8", "replace") != opener_user:
+                ctx.count("other_username_read_inside_open_exchange")
         ctx.count("callbacks_logged", len([c for c in ep["cbs"] if c["name"].startswith("check_auth")]))
         grants = [o for o in ep["out"] if o["type"] == MSG_USERAUTH_SUCCESS]
         needs = bool(grants)
@@ -440,6 +494,29 @@ def analyse(ctx, sess, desc, labels, auth_samples):
             continue
         ctx.count("grants_seen", len(grants))
         grant_ns.append(m["n"])
+        # whom does the server say it authenticated?  Must be the user of the request that justified the grant
+        # (for a continuation message: the user of the request that opened that exchange).
+        expected = info.get("user") if info.get("kind") == "request" else opener_user
+        after = [x for x in name_samples if x[0] > m["n"]]
+        if after and expected is not None:
+            _, api_name, handler_name = after[0]
+            for src, got in (("Transport.get_username()", api_name), ("auth_handler.get_username()", handler_name)):
+                if got is None:
+                    continue
+                ctx.count("grant_usernames_compared")
+                if info.get("kind") != "request":
+                    ctx.count("continuation_grant_usernames_compared")
+                if got != expected:
+                    ctx.violation("grant attributed to another username than the approved request's (%s)"
+                                  % ("request" if info.get("kind") == "request" else "continuation of an exchange"),
+                                  "%s reports %r after USERAUTH_SUCCESS, but the approval that justified the grant "
+                                  "belongs to %r" % (src, got, expected),
+                                  dict(session=desc, reported=got, expected=expected, source=src, oracle=info,
+                                       callbacks=[dict(name=c["name"], args=c["args"], result=res_name(c["result"]))
+                                                  for e2 in eps for c in e2["cbs"] if c["name"].startswith("check_auth")][-8:]))
+                    break
+        elif expected is None:
+            ctx.count("grants_without_an_opening_request_name_not_judged")
         ctx.count("grants_method_" + info.get("method", "?"))
         if ok:
             ctx.count("grants_justified", len(grants))
@@ -451,6 +528,10 @@ def analyse(ctx, sess, desc, labels, auth_samples):
         if info.get("kind") != "request" and not info["kind"].startswith("continuation"):
             ctx.violation("USERAUTH_SUCCESS sent in reply to %s" % info["kind"],
                           "a grant was sent although the message read was no authentication request", wit)
+        elif info.get("method") == "gssapi-keyex" and info["cbstate"] == "approved" and info.get("mic_valid") is False:
+            ctx.violation("gssapi-keyex granted without a valid MIC for this session and user",
+                          "the GSS context rejected (or never saw a valid) MIC, yet the application's approval alone "
+                          "produced USERAUTH_SUCCESS", wit)
         elif info.get("method") == "publickey" and info["cbstate"] == "approved":
             cls = "no signature attached" if info.get("sig_attached") is False else \
                 ATTACK_CLASS.get(label[3] if label and label[0] == "pk" else "", "signature does not verify")
@@ -483,12 +564,13 @@ def run_session(ctx, rng, desc):
 
     def setup(s):
         if pol["kex_ctx"] != "none":
-            s.victim.kexgss_ctxt = StubKexCtx(ok=pol["kex_ctx"] == "ok")
+            s.victim.kexgss_ctxt = StubKexCtx()
 
     sess = started(lambda: Sess(rng, policy=build_policy(pol), users={user: "pw"}, setup=setup),
                    lambda s: s.start(auth=False))
     labels = {}
     samples = []
+    names = []
     if sess is None:
         ctx.inconclusive("handshake failed three times")
         return
@@ -511,6 +593,18 @@ def run_session(ctx, rng, desc):
             ctx.count("steps_sent")
             ctx.count("step_" + (stp[0] if stp[0] != "pk" else "pk_" + stp[3]))
             n_at = sess.att.mark()
+            if stp[0] == "gss_keyex" and len(stp) > 1 and stp[1] != "valid" and pol["enable_auth_gssapi"] \
+                    and pol["kex_ctx"] == "ok" and pol["check_auth_gssapi_keyex"] == S:
+                ctx.count("gss_invalid_mic_sent_to_approving_application")
+            try:
+                api_name = v.get_username()
+            except AttributeError:
+                api_name = None
+            try:
+                handler_name = v.auth_handler.get_username() if v.auth_handler is not None else None
+            except AttributeError:
+                handler_name = None
+            names.append((n_at, api_name, handler_name))
             try:
                 samples.append((n_at, bool(v.is_authenticated())))
             except AttributeError:
@@ -523,7 +617,7 @@ def run_session(ctx, rng, desc):
                     ctx.count("gss_with_mic_dead_code_TypeError")
                 ctx.count("victim_ended_mid_session")
                 break
-        n_req = analyse(ctx, sess, desc, labels, samples)
+        n_req = analyse(ctx, sess, desc, labels, samples, names)
         ctx.case(("c14", repr(desc)), sample=desc if desc.get("sample") else None, nontrivial=n_req > 0)
     except FenceTimeout as e:
         ctx.inconclusive("fence timeout: %s" % e)
@@ -557,14 +651,34 @@ def run(ctx):
                 plan.append(dict(kind="kbd-rounds-focus",
                                  focus=dict(check_auth_interactive="Q", kbd_rounds=rounds, kbd_final=ans),
                                  first=[("kbd_start",)] + [("info_response",)] * (rounds + 1)))
-            for ctxk in ("ok", "ok", "bad", "none"):
+            for mk in MIC_KINDS:
                 plan.append(dict(kind="gss-keyex-focus",
-                                 focus=dict(check_auth_gssapi_keyex=ans, enable_auth_gssapi=True, kex_ctx=ctxk),
-                                 first=[("gss_keyex",)]))
+                                 focus=dict(check_auth_gssapi_keyex=ans, enable_auth_gssapi=True, kex_ctx="ok"),
+                                 first=[("gss_keyex", mk)]))
+            plan.append(dict(kind="gss-keyex-no-context",
+                             focus=dict(check_auth_gssapi_keyex=ans, enable_auth_gssapi=True, kex_ctx="none"),
+                             first=[("gss_keyex", "valid")]))
+            # identity rebinding: a request for another user (any method) inside an open interactive exchange
+            for om in OTHER_METHODS:
+                plan.append(dict(kind="rebinding-focus",
+                                 focus=dict(check_auth_interactive="Q", kbd_rounds=0, kbd_final=S, check_auth_none=ans,
+                                            check_auth_password=ans, check_auth_publickey=ans),
+                                 first=[("kbd_start",), ("other_user", om), ("info_response",)]))
             plan.append(dict(kind="gss-keyex-disabled", focus=dict(check_auth_gssapi_keyex=ans, enable_auth_gssapi=False,
                                                                   kex_ctx="ok"), first=[("gss_keyex",)]))
             plan.append(dict(kind="gss-mic-focus", focus=dict(check_auth_gssapi_with_mic=ans, enable_auth_gssapi=True),
                              first=[("gss_mic_start",), ("gss_token",), ("gss_mic",)]))
+    for rep in range(ctx.pick(12, 40)):
+        plan.append(dict(kind="kbd-exchange-approved",
+                         focus=dict(check_auth_interactive="Q", kbd_rounds=rep % 3, kbd_final=S),
+                         first=[("kbd_start",)] + [("info_response",)] * (rep % 3 + 1), no_tail=True))
+    for rep in range(ctx.pick(3, 8)):
+        for mk in MIC_KINDS:
+            plan.append(dict(kind="gss-keyex-app-approves-everything",
+                             focus=dict(check_auth_none=S, check_auth_password=S, check_auth_publickey=S,
+                                        check_auth_interactive=S, kbd_final=S, check_auth_gssapi_keyex=S,
+                                        check_auth_gssapi_with_mic=S, enable_auth_gssapi=True, kex_ctx="ok"),
+                             first=[("gss_keyex", mk)], no_tail=True))
     n_random = ctx.pick(100, 2400)
     for i in range(n_random):
         plan.append(dict(kind="random"))
@@ -581,7 +695,10 @@ def run(ctx):
         first = list(p.get("first", []))
         extra = draw_steps(rng, rng.randint(0, 4) if first else rng.randint(2, 9), kname, alg)
         # most sessions end with a request that would be granted if approved, so that grants are observed
-        tail = [rng.choice([("pk", kname, alg, "valid"), ("password",), ("none",), ("gss_keyex",)])] if rng.random() < 0.6 else []
+        tail = [rng.choice([("pk", kname, alg, "valid"), ("password",), ("none",), ("gss_keyex", "valid")])] \
+            if rng.random() < 0.6 and not p.get("no_tail") else []
+        if p.get("no_tail"):
+            extra = []
         after = draw_steps(rng, rng.randint(0, 2), kname, alg)  # requests after (a possible) success
         desc = dict(kind=p["kind"], user=rng.choice(["u", "alice", "root"]), key=[kname, alg], policy=pol,
                     steps=[list(s) for s in first + extra + tail + after],
@@ -601,3 +718,9 @@ def run(ctx):
     ctx.require("independent_sig_verifications", 150 if ctx.quick else 1500)
     ctx.require("independent_sig_valid", 20)
     ctx.require("is_authenticated_true", 20)
+    ctx.require("grant_usernames_compared", 60)
+    ctx.require("continuation_grant_usernames_compared", 10)
+    ctx.require("other_username_read_inside_open_exchange", 10)
+    ctx.require("gss_mic_checks_independent", 20)
+    ctx.require("gss_mic_valid", 10)
+    ctx.require("gss_invalid_mic_sent_to_approving_application", 8)
